@@ -188,6 +188,11 @@ def run(ctx):
             elif after_obj is not None:
                 ctx.violation("defaults-not-removed", f"_checkpoint_defaults left behind: {after_obj}", case)
             closes = [k for (w, k) in log if w == "close"]
+            # a pool that is closed is also joined, right after (PoolHandler.__exit__)
+            for j, (w_, k_) in enumerate(log):
+                if w_ == "close" and not (j + 1 < len(log) and log[j + 1] == ("join", k_)):
+                    ctx.violation("pool-closed-not-joined", f"pool {k_} was closed but not joined", case)
+                    break
             # model row
             ds = "None"
             if preset:
